@@ -47,6 +47,8 @@ func (server *GripServer) Traversal(query *gripql.GraphQuery, queryServer gripql
 // ListGraphs returns a list of graphs managed by the driver
 func (server *GripServer) ListGraphs(ctx context.Context, empty *gripql.Empty) (*gripql.ListGraphsResponse, error) {
 	//server.updateGraphMap()
+	server.stateMu.RLock()
+	defer server.stateMu.RUnlock()
 	graphs := []string{}
 	for g := range server.graphMap {
 		graphs = append(graphs, g)
@@ -452,7 +454,9 @@ func (server *GripServer) GetSchema(ctx context.Context, elem *gripql.GraphID) (
 	if !server.graphExists(elem.Graph) {
 		return nil, status.Errorf(codes.NotFound, fmt.Sprintf("graph %s: not found", elem.Graph))
 	}
+	server.stateMu.RLock()
 	schema, ok := server.schemas[elem.Graph]
+	server.stateMu.RUnlock()
 	if !ok {
 		if server.conf.Server.AutoBuildSchemas {
 			return nil, status.Errorf(codes.Unavailable, fmt.Sprintf("graph %s: schema not available; try again later", elem.Graph))
@@ -490,7 +494,9 @@ func (server *GripServer) AddSchema(ctx context.Context, req *gripql.Graph) (*gr
 	if err != nil {
 		return nil, fmt.Errorf("failed to store new schema: %v", err)
 	}
+	server.stateMu.Lock()
 	server.schemas[req.Graph] = req
+	server.stateMu.Unlock()
 	return &gripql.EditResult{Id: req.Graph}, nil
 }
 
